@@ -233,6 +233,8 @@ class EsDevice:
             self.log.append(dict(framing='aa55', cmd=cmd.hex(), payload=pl.hex(), fn=('read' if cmd[0] == 1 else 'write')))
             if self.silent:
                 return
+            if getattr(self, 'lossy', False) and len(self.log) % 2 == 1:
+                return          # a link that loses every other datagram (the first transmission of each request, then its retry arrives)
             rt = self.ACK.get(cmd, bytes([cmd[0], cmd[1] | 0x80]))
             if cmd == b'\x01\x02':
                 return self._reply(sock, wire.aa55_resp(rt, self.info), rq)
